@@ -19,6 +19,8 @@ message count, UIDNEXT and content) before and after the step.
           mailboxes; `r` marks the two messages of a RACE step, which share one marker)
   status  ok | no | effect (connector updates: there is no tagged reply, the effect is the answer)
           | <s1>,<s2> for race
+          optionally followed by `@<mbox>=<E<n> | ->`: what a session that has <mbox> selected was told at
+          its next NOOP after the step (the last EXISTS, or nothing)
 
 What is decided here (Lean, not Go):
   * invariant   — the step does not push the number of mailboxes, a mailbox's message count or a
@@ -31,7 +33,9 @@ What is decided here (Lean, not Go):
                   holds its other messages unchanged plus the n messages under the UIDs
                   UIDNEXT … UIDNEXT+n-1, the source of a MOVE loses exactly the moved messages;
   * uids        — after every step each mailbox's UIDs are below its UIDNEXT, messages that were
-                  there before keep their UID, new ones get UIDs from the old UIDNEXT upwards.
+                  there before keep their UID, new ones get UIDs from the old UIDNEXT upwards;
+  * announced   — a watching session is told nothing about a mailbox the step left as it was (a refused
+                  operation in particular), and is told the exact new count when the mailbox grew.
 -/
 import GluonModel.Model.Limits
 
@@ -385,6 +389,18 @@ def judge (l : IMAP) (op : Op) (before after : WorldObs) (status : String) : Str
            | _, _ => "violation unparsable-op cause=harness-observation")
         | _, _ => s!"violation no-tagged-completion cause=no-completion status={status}"
 
+/-- what the watching session was told, against what happened to the mailbox it has selected -/
+def judgeWatch (before after : WorldObs) (mb tok : String) : Option String :=
+  match find before mb, find after mb with
+  | some b, some a =>
+    if tok == "lost" then some "violation watching-session-lost cause=harness-observation"
+    else if a.count == b.count && a.uidNext == b.uidNext && a.content == b.content then
+      (if tok != "-" then some s!"violation unchanged-mailbox-announced-to-a-session told={tok} count={a.count} cause=announced-without-effect" else none)
+    else if a.count > b.count then
+      (if tok != s!"E{a.count}" then some s!"violation grown-mailbox-not-announced-exactly told={tok} count={a.count} cause=announcement-mismatch" else none)
+    else none
+  | _, _ => none
+
 end JLimits
 
 open JLimits in
@@ -398,7 +414,19 @@ def judgeC17Wire (args : List String) : String :=
       (match rest.span (· != "|") with
        | (opw, "|" :: before :: "=>" :: status :: "|" :: after :: []) =>
          (match parseOp opw, parseWorld before, parseWorld after with
-          | some op, some bw, some aw => judge l op bw aw status
+          | some op, some bw, some aw =>
+            (match status.splitOn "@" with
+             | [st, watch] =>
+               let res := judge l op bw aw st
+               if !res.startsWith "ok" then res
+               else
+                 (match watch.splitOn "=" with
+                  | [mb, tok] =>
+                    (match judgeWatch bw aw mb tok with
+                     | some v => s!"{v} op={kindOf op}"
+                     | none => res ++ "-watched")
+                  | _ => "violation unparsable-op cause=harness-observation")
+             | _ => judge l op bw aw status)
           | _, _, _ => "violation unparsable-op cause=harness-observation")
        | _ => "violation unparsable-op cause=harness-observation")
     | _, _, _ => "violation unparsable-op cause=harness-observation"
